@@ -147,7 +147,10 @@ def run(ctx):
         "Yeo-Johnson in the band 0 < w < 1e3*EPS above the forward/backward switch (exact "
         "invertibility is false there; DESIGN 5/C01 G)",
     ]
+    import time
+    t0 = time.time()
     proved = cm.prove(ctx, extractors=["c01"], extra_targets=["Proofs/TransformTac.vo"])
+    t_prove = time.time() - t0
     cm.use_impl()
     from hydrodiy.stat import transform as T   # noqa: F401
     rng = ctx.rng
@@ -349,7 +352,10 @@ def run(ctx):
     shape_checks(ctx)
 
     # ---- E3
+    t1 = time.time()
     bad, nok, nshards, failed = tc.run_e3(PID, goals, shard=ctx.scale(40, 60))
+    ctx.notes["timing_s"] = {"prove": round(t_prove, 1), "generate+oracle": round(t1 - t0 - t_prove, 1),
+                             "e3": round(time.time() - t1, 1)}
     ctx.notes["correspondence_goals"] = len(goals)
     ctx.notes["correspondence_mismatches"] = len(bad)
     ctx.notes["e3_shards"] = nshards
